@@ -165,8 +165,12 @@ def main():
             (L(('chrM', 2500, ['pos0', 'cigar', 'minimal_tags', 'contig_end']), ('chr1', 100_000, ['pos0', 'pair', 'cigar', 'contig_end']),
                ('chr1_alt', 99_999, ['contig_end']), ('1', 250_000, ['minimal_tags', 'pos0'])), False),
             (L(('chr1', 100_000, ['pos0', 'cigar', 'nomotif', 'contig_end']), ('chr11', 40_000, ['cigar', 'orphan_r2'])), True),
+            # legal SAM reference names containing * : | = ; (only the bare '*' is the unplaced bin)
+            (L(('HLA-A*01:01:01:01', 2500, ['pair', 'single']), ('chr1', 250_000, ['pair']), ('HLA-B*07:02', 100_000, ['pair_rev']),
+               ('un|k=1', 40_000, ['single']), ('chr7:alt;2', 250_000, ['half'])), False),
         ]
-        directed[-3][0]['star'] = ['unplaced_pair', 'unplaced_single']
+        directed[-1][0]['star'] = ['unplaced_single']
+        directed[-4][0]['star'] = ['unplaced_pair', 'unplaced_single']
         for k, (lay, nr) in enumerate(directed):
             for method in (['nla', 'chic'] if not nr else ['nla']):
                 bs = rng.randrange(1 << 30)
